@@ -168,15 +168,17 @@ def run(phase, cases, ctx):
                     land = HealpixLandscape(ns, 'QU', D)
                     npix = 12 * ns * ns
                     th12, ph12 = hp.pix2ang(ns, np.arange(npix))
-                    seqs = [list(range(npix)), [(i * 7) % npix for i in range(3 * npix)], [0] * 5 + [npix - 1] * 2, list(range(0, npix, 3)) * 2]
+                    seqs = [list(range(npix)), [(i * 7) % npix for i in range(3 * npix)], [0] * 5 + [npix - 1] * 2, list(range(0, npix, 3)) * 2,
+                            [[(i * 5 + 3 * d) % npix for i in range(6)] for d in range(2)], [[(7 * d + i) % npix] for d, i in zip(range(4), (0, 5, 9, 11))],
+                            [[[0, npix - 1], [3 % npix, 4 % npix]], [[5 % npix, 0], [npix - 1, npix - 1]]]]
                 for s in seqs:
                     s = np.array(s)
-                    samp = Sampling(jnp.asarray(th12[s], D), jnp.asarray(ph12[s], D), jnp.zeros(len(s), D))
+                    samp = Sampling(jnp.asarray(th12[s], D), jnp.asarray(ph12[s], D), jnp.zeros(s.shape, D))
                     cov = np.asarray(land.get_coverage(samp))
-                    want = np.bincount(s, minlength=len(land)).reshape(land.shape)
+                    want = np.bincount(s.ravel(), minlength=len(land)).reshape(land.shape)
                     counters['samplings'] += 1
-                    if cov.shape != land.shape or not np.array_equal(cov, want) or cov.sum() != len(s):
-                        violations.append({'kind': 'coverage', 'case': case, 'detail': f'sampling of pixels {s[:8].tolist()}...: coverage {cov.ravel()[:12]} (sum {cov.sum()}) vs histogram {want.ravel()[:12]} (samples {len(s)})'})
+                    if cov.shape != land.shape or not np.array_equal(cov, want) or cov.sum() != s.size:
+                        violations.append({'kind': 'coverage', 'case': case, 'detail': f'sampling of pixels {s.ravel()[:8].tolist()} (shape {s.shape})...: coverage {cov.ravel()[:12]} (sum {cov.sum()}) vs histogram {want.ravel()[:12]} (samples {s.size})'})
                         break
                 nontrivial.add(json.dumps(case))
         except Exception as e:  # noqa: BLE001
